@@ -747,6 +747,10 @@ def call_builtin(it, fn, args, kwargs, node, fr):
         return opaque(it, "type", args, kwargs)
     if fn == "hasattr" and len(args) == 2:
         it.record("feature-test", "hasattr", args, {}, node)
+        if isinstance(args[0], Frame) and is_pyconst(args[1]) and isinstance(pyval(args[1]), str):
+            # a feature test on a table: answered from the installed pandas (the library the checks are run against, as in E9)
+            import pandas as _pd
+            return K(hasattr(_pd.DataFrame, pyval(args[1])) or pyval(args[1]) in args[0].cols)
         return Val(call("hasattr", to_term(args[0]), to_term(args[1])))
     if fn == "getattr" and len(args) >= 2 and is_pyconst(args[1]):
         from .lib import getattr_
@@ -1023,8 +1027,9 @@ def call_method(it, recv, name, args, kwargs, node, fr):
         # series.str.xxx(...)
         it.record("call", f"method:{recv.name}.{name}", [recv.recv] + args, dict(kwargs), node)
         base = recv.recv
-        u = Val(call(f".{recv.name}.{name}", to_term(base), *[to_term(a) for a in args]), space=getattr(base, "space", None),
-                series=True)
+        kwn = sorted(kwargs)
+        u = Val(call(f".{recv.name}.{name}" + (f"[{','.join(kwn)}]" if kwn else ""), to_term(base), *[to_term(a) for a in args],
+                     *[to_term(kwargs[k_]) for k_ in kwn]), space=getattr(base, "space", None), series=True)
         u.method_chain = (recv.name, name, base, args)
         return u
     if isinstance(recv, Unk) and getattr(recv, "is_tree", False) and name in ("query", "query_ball_point", "query_radius"):
@@ -1173,7 +1178,30 @@ def frame_method(it, f, name, args, kwargs, node, fr):
     if name == "astype":
         c = f.clone()
         c.notes.append(("astype", to_term(args[0]) if args else const(None)))
+        if args and (isinstance(args[0], Ref) and args[0].name == "builtins.str" or is_pyconst(args[0]) and pyval(args[0]) in ("str", "string")):
+            c.cols = {k: T("str", v) for k, v in f.cols.items()}  # every cell becomes its text
+            if getattr(f, "kinds", None) is not None:
+                c.kinds = {k: "object" for k in f.kinds}
         return c
+    if name == "select_dtypes":
+        kinds = getattr(f, "kinds", None)
+        inc, exc = kwargs.get("include", args[0] if args else None), kwargs.get("exclude", args[1] if len(args) > 1 else None)
+
+        def _sel(v):
+            if v is None:
+                return None
+            if isinstance(v, Ref):
+                return {"numpy.number": "number", "builtins.object": "object", "builtins.float": "number", "builtins.int": "number"}.get(v.name)
+            if is_pyconst(v) and pyval(v) in ("number", "object"):
+                return pyval(v)
+            return "?"
+        si, se = _sel(inc), _sel(exc)
+        if kinds is None or f.order is None or "?" in (si, se) or (si is None and se is None):
+            raise Unsupported("DataFrame.select_dtypes on a table whose column types are not known", node)
+        keep = [c_ for c_ in f.order if (si is None or kinds.get(c_) == si) and (se is None or kinds.get(c_) != se)]
+        r_ = frame_select(it, f, keep, node)
+        r_.kinds = {c_: kinds[c_] for c_ in keep}
+        return r_
     if name == "round":
         d = argn(args, kwargs, 0, "decimals", K(0))
         c = f.clone()
@@ -1237,6 +1265,8 @@ def frame_method(it, f, name, args, kwargs, node, fr):
     if name == "itertuples":
         u = Unk(call("itertuples", const(f.name)))
         u.of_frame = f
+        u.iter_kind = "itertuples"
+        u.with_index = _flag(kwargs, "index", True) is not False
         return u
     if name == "groupby":
         by = argn(args, kwargs, 0, "by")
@@ -1343,6 +1373,9 @@ def val_method(it, v, name, args, kwargs, node, fr):
     if is_pyconst(v):
         pv = pyval(v)
         if isinstance(pv, str):
+            if name == "join" and len(args) == 1 and isinstance(args[0], Seq) and not all(is_pyconst(x) for x in args[0].items):
+                # sep.join(<enumerated items>): the items' texts with the separator between them
+                return Val(call("str.join", const(pv), T("vec", *[to_term(x) for x in args[0].items])))
             try:
                 cargs = [pyval(a) for a in args]
                 r = getattr(pv, name)(*cargs)
